@@ -113,10 +113,9 @@ def Univ.addMtData (u : Univ) (p : Packet) (d : MtData) : Univ :=
 
 def Univ.addPacket (u : Univ) (p : Packet) : Univ :=
   let u := u.addKey p.key
-  match p.data with
-  | .nft d => u.addNftData p d
-  | .mt d => u.addMtData p d
-  | _ => u
+  -- the payload may be handed to either transfer application (`decodeNft` / `decodeMt`)
+  let u := match decodeNft p.data with | some d => u.addNftData p d | none => u
+  match decodeMt p.data with | some d => u.addMtData p d | none => u
 
 def keyStr (k : PKey) : String := s!"{undash k.src}/{undash k.dst}/{k.seq}"
 def pairStr (p : Pair) : String := s!"{undash p.src}/{undash p.dst}"
